@@ -68,6 +68,11 @@ def generate(rng, tier):
     # membership says so, a Consistency::None write of node 1 must not be sent to it any more (about 20 s per case)
     for _ in range(dict(quick=1, thorough=3, search=1)[tier]):
         cases.append(['case %d full' % idx, 'leave', 'end']); idx += 1
+    # full stack, the layer BELOW the watcher (chitchat ready set -> membership snapshots): node 2 restarts under the same id at a new
+    # address, faster than failure detection; at quiescence node 1's subscriber holds it at the new address and node 1's
+    # distributor delivers there (about 30 s per case)
+    for _ in range(dict(quick=1, thorough=3, search=1)[tier]):
+        cases.append(['case %d full' % idx, 'rejoin', 'end']); idx += 1
     return cases
 
 
@@ -111,8 +116,13 @@ def canon(line, out):
         if d['sanity'] != 'true' or d['left_seen'] != 'true':
             return 'full safe'        # the cluster did not form / the departure was not detected in time: inconclusive
         return 'full safe' if d['delivered_after_leave'] == 'false' else 'full UNSAFE ' + out
-    if line == 'leave' and out.startswith('full not-started'):
+    if line in ('leave', 'rejoin') and out.startswith('full not-started'):
         return 'full safe'
+    if line == 'rejoin' and out.startswith('full first='):
+        d = dict(x.split('=') for x in out.split()[1:])
+        if d['first'] != 'true' or d['dead_seen'] != 'true':
+            return 'full safe'        # the cluster did not form / the old incarnation was not declared dead in time: inconclusive
+        return 'full safe' if d['view'] == 'new' and d['delivered_to_new'] == 'true' else 'full UNSAFE ' + out
     return out.split(' ts=')[0] if line.startswith('dist-put') else out
 
 
@@ -124,6 +134,8 @@ def oracle(case, impl):
         t = line.split()
         if line == 'leave' and canon(line, out) != 'full safe':
             bad.append('a member that left is still replicated to by the store\'s distributor (%s)' % out)
+        if line == 'rejoin' and canon(line, out) != 'full safe':
+            bad.append('a member that came back under a new address is not held / not replicated to at that address at quiescence (%s)' % out)
         if t[0] == 'dist-change':
             for m in ([] if t[2] == '-' else t[2].split(',')):
                 mid, at = m.split('@')
